@@ -42,8 +42,9 @@ def reprConst : Const → Text
   | .float r => r
   | .str s => reprStr s
 
+/-- `node.op.value`: the values of `parse.tree.Comparator` are the literal names -/
 def cmpText : Cmp → Text
-  | .lt => t "<" | .le => t "<=" | .gt => t ">" | .ge => t ">=" | .eq => t "==" | .ne => t "!="
+  | .lt => t "LT" | .le => t "LE" | .gt => t "GT" | .ge => t "GE" | .eq => t "EQ" | .ne => t "NE"
 
 /-- `_Canonicalizer._needs_no_brackets` -/
 def needsNoBrackets : Expr → Bool
